@@ -184,10 +184,10 @@ func init() {
 			}
 			return &SymStr{b}
 		},
-		"strings.Split":      stringsSplit,
-		"reflect.TypeOf":     func(e *Exec, fr *frame, a []Value) Value { return iface{} },
-		"runtime/debug.Stack": func(e *Exec, fr *frame, a []Value) Value { return []Value(nil) },
-		"runtime.Gosched":    func(e *Exec, fr *frame, a []Value) Value { e.schedPoint(fr); return nil },
+		"strings.Split":               stringsSplit,
+		"reflect.TypeOf":              func(e *Exec, fr *frame, a []Value) Value { return iface{} },
+		"runtime/debug.Stack":         func(e *Exec, fr *frame, a []Value) Value { return []Value(nil) },
+		"runtime.Gosched":             func(e *Exec, fr *frame, a []Value) Value { e.schedPoint(fr); return nil },
 		modPath + "/actor.cleanTrace": func(e *Exec, fr *frame, a []Value) Value { return a[0] },
 		"github.com/zeebo/xxh3.Hash":  xxh3Hash,
 		"log.Fatal": func(e *Exec, fr *frame, a []Value) Value {
@@ -348,6 +348,13 @@ func init() {
 	z := modPath + "/zzrt."
 	intrinsics[z+"Param"] = func(e *Exec, fr *frame, a []Value) Value {
 		return e.st.Const(64, uint64(int64(e.params[strArg(a[0])])))
+	}
+	// RaceAccess(obj, write): a harness receiver declares a plain access to its own state
+	intrinsics[z+"RaceAccess"] = func(e *Exec, fr *frame, a []Value) Value {
+		if e.race != nil && e.race.watch {
+			e.race.accessK(e, fr, hbKey(a[0]), a[1].(*Term).val != 0, false)
+		}
+		return nil
 	}
 	intrinsics[z+"RaceWatch"] = func(e *Exec, fr *frame, a []Value) Value {
 		if e.race != nil {
